@@ -11,6 +11,7 @@ import signal
 import sys
 import time
 import traceback
+import warnings
 
 HERE = os.path.dirname(os.path.abspath(__file__))
 sys.path.insert(0, HERE)
@@ -75,6 +76,7 @@ def alarm_handler(signum, frame):
 def main():
     prop, tier, seed, outfile = sys.argv[1], sys.argv[2], int(sys.argv[3]), sys.argv[4]
     signal.signal(signal.SIGALRM, alarm_handler)
+    warnings.simplefilter("ignore")
     ctx = Ctx(prop, tier, seed)
     t0 = time.time()
     status = "ok"
